@@ -447,9 +447,11 @@ func doCheck(bin, prop string, spec PropSpec, tier string, seedBase uint64, budg
 		// minimise the shortest failing schedule
 		sort.Slice(vr, func(i, j int) bool { return len(vr[i].sched.Steps) < len(vr[j].sched.Steps) })
 		first := vr[0]
-		rawPath := filepath.Join(outDir, fmt.Sprintf("%d.raw.json", first.sched.Seed))
+		// one seed can show several identities: the file name carries the identity too
+		slug := strings.NewReplacer("|", "_", "/", "-", "(", "", ")", "").Replace(strings.TrimPrefix(id, prop+"|"))
+		rawPath := filepath.Join(outDir, fmt.Sprintf("%d.%s.raw.json", first.sched.Seed, slug))
 		writeJSON(rawPath, first.sched)
-		minPath := filepath.Join(outDir, fmt.Sprintf("%d.min.json", first.sched.Seed))
+		minPath := filepath.Join(outDir, fmt.Sprintf("%d.%s.min.json", first.sched.Seed, slug))
 		mjob := Job{Mode: "minimise", Engine: spec.Engine, Property: prop, Schedule: rawPath, Identity: id, Out: filepath.Join(scratch, "min.jsonl"), MinBudget: spec.MinBudget}
 		lines, _, killed := runWorker(bin, mjob, filepath.Join(scratch, "min.job.json"), 15*time.Minute, 1)
 		var min *core.Schedule
